@@ -24,6 +24,29 @@ CONFIGS = {
 
 MEM_LIMIT_KB = 24 * 1024 * 1024
 
+# config -> path of the whole library (every /repo/src/**/*.c, unmodified) precompiled into one goto binary for
+# this run; jobs that name library sources link against it, so a new cross-file call inside the library resolves
+LIBS = {}
+
+
+def build_libs(workroot, configs):
+    """Compile all library sources once per configuration. Returns error text or None."""
+    files = []
+    for root, _, fs in os.walk(os.path.join(REPO, 'src')):
+        for f in sorted(fs):
+            if f.endswith('.c'):
+                files.append(os.path.join(root, f))
+    if not files:
+        return 'no library sources under %s/src' % REPO
+    for cfg in configs:
+        out = os.path.join(workroot, 'lib_%s.gb' % cfg)
+        log = []
+        rc, o, e = _run(['goto-cc', '-std=gnu99', '-DCOVESA_OPEN1722_VERIF'] + CONFIGS[cfg] + ['-I' + os.path.join(REPO, 'include')] + sorted(files) + ['-o', out], workroot, 600, log)
+        if rc != 0 or not os.path.exists(out):
+            return 'library does not compile (%s): %s' % (cfg, (e or o)[-1200:])
+        LIBS[cfg] = out
+    return None
+
 
 class Job:
     """One named obligation: a function enforced against one contract under one
@@ -90,6 +113,7 @@ class JobResult:
         self.workdir = None
         self.cmds = []
         self.loop_contract_mode = None
+        self.used_lib = False
 
     def failed(self):
         return [p for p in self.props if p.status == 'FAILURE']
@@ -221,6 +245,11 @@ def run_job(job, workroot, keep=False):
     """Runs one obligation; if CBMC runs out of object identifiers (default 2^8 objects) the
     run is repeated with more object bits."""
     res = _run_job_once(job, workroot, keep)
+    if res.status == 'undecided' and res.used_lib and ('failed' in res.reason or 'Invariant' in res.reason or 'no result list' in res.reason):
+        # the whole-library binary can trip the tools (Crf.h and Cvf.h both define struct Avtp_Cvf):
+        # fall back to linking only the sources the obligation names
+        job.no_lib = True
+        res = _run_job_once(job, workroot, keep)
     tries = 0
     while res.status == 'undecided' and 'too many addressed objects' in res.reason and tries < 2:
         tries += 1
@@ -241,6 +270,10 @@ def _run_job_once(job, workroot, keep=False):
     incs = ['-I' + os.path.join(REPO, 'include'), '-I' + os.path.join(VERIF, 'spec'),
             '-I' + os.path.join(VERIF, 'contracts'), '-I' + wd] + ['-I' + i for i in job.includes]
     srcs = [os.path.join(REPO, s) if not os.path.isabs(s) else s for s in job.sources]
+    res.used_lib = False
+    if job.sources and all(x.startswith('src/') for x in job.sources) and LIBS.get(job.config) and not getattr(job, 'no_lib', False):
+        srcs = [LIBS[job.config]]
+        res.used_lib = True
     for s in srcs:
         if not os.path.exists(s):
             res.reason = 'source file missing: %s' % s
